@@ -591,9 +591,9 @@ def check(ctx):
     ctx.count("R10:device members evaluated with out-of-list states", m10_)
     ctx.floor("R10", "facades inspected with out-of-list device states", n10_, 10)
     ctx.floor("R10", "device members evaluated with out-of-list states", m10_, 500)
-    ctx.rule("R12", "device members are total on the wiring that builds every device: the same facades, built with output number n reading the n-th user-device label of its own list (pumps at both speeds, blower, WATERFALL, light - the shipped snapshots and the mixed valuation wire only some of them), every Enum item reading a label of its list: every read-only member of every device built (`modes` included: the waterfall is a pump whose demand is labelled OFF|ON, not OFF|LO|HI) evaluates without raising")
+    ctx.rule("R12", "device members are total on the wiring that builds every device: the same facades, built with output number n reading the n-th user-device label of its own list (pumps at both speeds, blower, WATERFALL, light - the shipped snapshots and the mixed valuation wire only some of them), every Enum item reading a label of its list: every read-only member of every device built (`modes` included: the waterfall is a pump whose demand is labelled OFF|ON, not OFF|LO|HI) evaluates without raising - and so do its string renderings once a client watches it with a plain function (an observer need not be a bound method)")
     n12_, m12_, kinds12_ = 0, 0, set()
-    for (plat_, cs_, ls_, fcls_), (r_, extra_) in sorted(_ools(repo, T, valuation="devices", unknown=False).items()):
+    for (plat_, cs_, ls_, fcls_), (r_, extra_) in sorted(_ools(repo, T, valuation="devices", unknown=False, subscribe=True).items()):
         if r_ is not None or extra_ is None:
             continue      # a pair whose facade cannot be built is R1's finding
         bad_, nm_ = extra_
